@@ -5,9 +5,15 @@
 // calls; logical frontend threads are real OS threads (own thread_local context, registered in a fixed order
 // at start-up) that execute one command at a time and park. remove_logger_blocking parks in the interposed
 // nanosleep of its wait loop; command 8 lets it look at the flag once more. Frontend commands can be injected
-// at the QUILL_VERIF yield points inside a poll. Time is virtual (one tick per committed record), so the
-// backend's "lowest timestamp first" is the commit order.
+// at the QUILL_VERIF yield points inside a poll, and inside the destructor of a recording sink when the sink is
+// destroyed by the backend, i.e. inside the loop of LoggerManager::cleanup_invalidated_loggers while it erases a
+// logger (no hook of the library involved: a sink destructor is user code). Time is virtual (one tick per
+// committed record), so the backend's "lowest timestamp first" is the commit order.
 //
+// Injection keys of a poll (11 n (key ntok tok..)*n): 1, 5, 6, 8 = yield point; 30+k = yield point 3 before queue k is
+// read; 100+name = inside the destructor of the sink of that name when the backend destroys it (fires when that sink is
+// the last one of every logger created over it, so that the destructor is the last event of the erase; calls that need
+// the LoggerManager lock, held by the backend there, make no step).
 // case line: see Registry/RegExec.v (lg_run_enc). Output: the API-level observation stream (same encoding):
 // (every call echoes its arguments, so the stream is a self-contained API trace)
 //   1 S L m          sink S wrote message m of logger object L        2 S   sink S destroyed
@@ -24,6 +30,7 @@
 // in a constructor argument; both are read back through the returned pointer.
 #include "common.h"
 
+#include <algorithm>
 #include <atomic>
 #include <condition_variable>
 #include <cstring>
@@ -114,11 +121,17 @@ static bool parse_num(std::string_view s, size_t& i, u64& out)
 }
 
 // ------------------------------------------------------------------ recording sink
+static void on_sink_destroyed(u64 uid, u64 name);
+
 class RecSink : public quill::Sink
 {
 public:
-  explicit RecSink(u64 uid) : _uid(uid) {}
-  ~RecSink() override { obs({2, _uid}); }
+  RecSink(u64 uid, u64 name) : _uid(uid), _name(name) {}
+  ~RecSink() override
+  {
+    obs({2, _uid});
+    on_sink_destroyed(_uid, _name);
+  }
   void write_log(quill::MacroMetadata const*, uint64_t, std::string_view, std::string_view, std::string const&,
                  std::string_view, quill::LogLevel, std::string_view, std::string_view,
                  std::vector<std::pair<std::string, std::string>> const*, std::string_view, std::string_view statement) override
@@ -135,6 +148,7 @@ public:
 
 private:
   u64 _uid;
+  u64 _name;
 };
 
 static void notifier(std::string const&) { obs({15, 2}); }
@@ -150,6 +164,10 @@ static std::map<u64, std::shared_ptr<quill::Sink>> g_hnd; // user handles
 static std::map<u64, quill::Logger*> g_vars;               // user logger variables
 static u64 g_next_sink = 1, g_next_logger = 1, g_nt = 0;
 static int g_case = 0;
+static std::vector<std::vector<u64>> g_lsinks; // sink objects given to each logger object created in this case
+static bool g_in_poll = false;                 // the coordinator is inside poll_one()
+static int g_in_cmd = 0;                       // ... inside a command of the case (top level or injected)
+static bool g_in_dtor = false;                 // ... inside an injection at a sink destructor (LoggerManager lock held by the backend)
 
 static void spawn_worker()
 {
@@ -262,12 +280,16 @@ static bool tfree(u64 t) { return t < g_nt && !parked(*g_workers[t]); }
 static void exec_simple(Cmd const& c)
 {
   auto const& a = c.a;
+  // create_or_get_logger / get_logger / get_number_of_loggers / get_all_loggers take the LoggerManager lock: a thread
+  // calling them while the backend is inside the clean-up loop makes no step until the loop is over
+  if (g_in_dtor && (c.code == 3 || c.code == 4 || c.code == 9 || c.code == 10)) return;
+  struct Depth { Depth() { ++g_in_cmd; } ~Depth() { --g_in_cmd; } } depth;
   switch (c.code)
   {
   case 1: // handle h := create_or_get_sink(name)
   {
     if (g_hnd.count(a[0])) { obs({3, a[0], a[1], 0}); break; }
-    auto s = quill::Frontend::create_or_get_sink<RecSink>(sname(a[1]), g_next_sink);
+    auto s = quill::Frontend::create_or_get_sink<RecSink>(sname(a[1]), g_next_sink, a[1]);
     u64 uid = static_cast<RecSink*>(s.get())->uid();
     if (uid == g_next_sink) ++g_next_sink;
     g_hnd[a[0]] = std::move(s);
@@ -285,16 +307,17 @@ static void exec_simple(Cmd const& c)
   case 3: // v := create_or_get_logger(name, {handles})
   {
     std::vector<std::shared_ptr<quill::Sink>> ss;
+    std::vector<u64> suids;
     for (size_t j = 0; j < a[2]; ++j)
     {
       auto it = g_hnd.find(a[3 + j]);
-      if (it != g_hnd.end()) ss.push_back(it->second);
+      if (it != g_hnd.end()) { ss.push_back(it->second); suids.push_back(static_cast<RecSink*>(it->second.get())->uid()); }
     }
     quill::Logger* lg = quill::Frontend::create_or_get_logger(
       lname(a[1]), std::move(ss), quill::PatternFormatterOptions{"%(message)|" + std::to_string(g_next_logger)},
       quill::ClockSourceType::System);
     u64 uid = logger_uid(lg);
-    if (uid == g_next_logger) ++g_next_logger;
+    if (uid == g_next_logger) { ++g_next_logger; g_lsinks.push_back(std::move(suids)); }
     g_vars[a[0]] = lg;
     obs({4, a[0], a[1], uid, a[2]});
     for (size_t j = 0; j < a[2]; ++j) obs({a[3 + j]});
@@ -386,10 +409,28 @@ static void on_yield(int point)
       for (auto const& c : inj.cmds) exec_simple(c);
 }
 
+// Runs inside ~RecSink. The sink is destroyed by the backend iff the coordinator is inside poll_one() and not inside a
+// command injected there (a handle reset): the backend owns no sink, it releases one only when it erases a logger in
+// the clean-up loop. The injection (key 100 + sink name) fires when this destructor is the last event of the erase:
+// the sink is the last one of every logger created over it (Registry/RegExec.v, dtor_fires).
+static void on_sink_destroyed(u64 uid, u64 name)
+{
+  if (!g_rec || !g_in_poll || g_in_cmd != 0 || g_in_dtor) return;
+  for (auto const& l : g_lsinks)
+    if (std::find(l.begin(), l.end(), uid) != l.end() && l.back() != uid) return;
+  g_in_dtor = true;
+  for (auto const& inj : g_inj)
+    if (inj.key == 100 + name)
+      for (auto const& c : inj.cmds) exec_simple(c);
+  g_in_dtor = false;
+}
+
 static void do_poll()
 {
   g_visits.clear();
+  g_in_poll = true;
   g_backend->poll_one();
+  g_in_poll = false;
   g_inj.clear();
   obs({10, static_cast<u64>(quill::Frontend::get_number_of_loggers())});
 }
@@ -402,6 +443,7 @@ static void run_case(std::vector<u64> const& l)
   g_nt = l[i++];
   if (g_nt > NTMAX) g_nt = NTMAX;
   g_next_sink = 1; g_next_logger = 1;
+  g_lsinks.clear();
   g_obs.clear();
   g_rec = true;
 
